@@ -134,6 +134,8 @@ impl Ctx {
 
     #[inline]
     pub fn count(&mut self, name: &str, n: u64) {
+        // heartbeat for the no-progress watchdog: monitors count something after every call under test
+        crate::HEARTBEAT.fetch_add(1, std::sync::atomic::Ordering::Relaxed);
         if let Some(c) = self.counters.get_mut(name) {
             *c += n;
         } else {
